@@ -46,7 +46,9 @@ func regressionScenarios(prop string) []regression {
 	fl := mk(
 		&Rule{Name: "Count", Desc: "", Sal: 0,
 			When: mkBin("&&", mkBin("<", eVar(vPath("F", "I64")), cInt(3)), neg(mkBin("==", eVar(vPath("F", "S")), cStr("stop")))),
-			Then: []*Stmt{assign(vPath("F", "I64"), "+=", cInt(1))}},
+			Then: []*Stmt{assign(vPath("F", "I64"), "+=", cInt(1)),
+				assign(vSel(vPath("F", "Arr"), cInt(1)), "=", mkBin("+", eVar(vSel(vPath("F", "Arr"), cInt(0))), eVar(vPath("F", "I64")))),
+				assign(vSel(vPath("F", "M"), cStr("a")), "=", mkBin("+", eVar(vSel(vPath("F", "M"), cStr("b"))), cInt(1)))}},
 		&Rule{Name: "Mark", Desc: "", Sal: 5,
 			When: mkBin(">=", eVar(vPath("F", "I64")), eVar(vPath("F", "In", "X"))),
 			Then: []*Stmt{assign(vPath("F", "S"), "=", mkBin("+", eVar(vPath("F", "S")), cStr("!"))), call(fn("Retract", cStr("Mark")))}},
